@@ -282,6 +282,7 @@ DftIsDefiningSum ==
 DftLinear ==
   (case.kind = "dft" /\ case.lin) =>
       \A i \in 1..k : /\ out[i][2] = DftDef(case.y, case.ms[i], case.norm)
+                      /\ out[i][3] = DftDef(Combo(case), case.ms[i], case.norm)
                       /\ out[i][3] = CAdd(CScale(case.al, out[i][1]), CScale(case.be, out[i][2]))
 DcBinIsMean ==
   (case.kind = "dft" /\ case.norm) => \A i \in 1..k : case.ms[i] = 0 => out[i][1] = Mean(case.x)
